@@ -149,8 +149,23 @@ Section MutationProofs.
   Lemma c01_step_none_no_cache op : c01_no_cache_op op -> fst (c01_step OP invT invP a false None op) = None.
   Proof. destruct op as [sl ch cache| |]; cbn; [intros ->; reflexivity | reflexivity | reflexivity]. Qed.
 
+  (* copies are handed out (alias = false): an overwrite never reaches the object; the history is the plain call history *)
+  Lemma c01_mstep_no_alias st m :
+    c01_mstep OP invT invP a false st m = c01_step OP invT invP a false st (c01_mop_op m).
+  Proof.
+    destruct m as [op ow]. unfold c01_mstep. cbn [c01_mop_op].
+    destruct (c01_step OP invT invP a false st op) as [st' o]. destruct ow; destruct op; destruct st'; reflexivity.
+  Qed.
+  Lemma c01_mrun_no_alias ms : forall st,
+    c01_mrun OP invT invP a false st ms = c01_run OP invT invP a false st (map (@c01_mop_op T) ms).
+  Proof.
+    induction ms as [|m rest IH]; intros st; cbn [c01_mrun c01_run map]; [reflexivity|].
+    rewrite c01_mstep_no_alias. destruct (c01_step OP invT invP a false st (c01_mop_op m)) as [st' o]. now rewrite IH.
+  Qed.
+
+  (* even when the cache itself is handed out (alias = true), nothing cached => nothing to corrupt *)
   Lemma c01_mstep_none m : c01_no_cache m ->
-    c01_mstep OP invT invP a None m = (None, c01_stateless OP invT invP a (c01_mop_op m)).
+    c01_mstep OP invT invP a true None m = (None, c01_stateless OP invT invP a (c01_mop_op m)).
   Proof.
     destruct m as [op ow]. unfold c01_no_cache. cbn [c01_mop_op].
     destruct op as [sl ch cache | r c | c r]; cbn [c01_no_cache_op]; intros H; [subst cache| |];
@@ -158,7 +173,7 @@ Section MutationProofs.
   Qed.
 
   Lemma c01_mrun_no_cache ms : Forall c01_no_cache ms ->
-    c01_mrun OP invT invP a None ms = map (fun m => c01_stateless OP invT invP a (c01_mop_op m)) ms.
+    c01_mrun OP invT invP a true None ms = map (fun m => c01_stateless OP invT invP a (c01_mop_op m)) ms.
   Proof.
     induction 1 as [|m rest Hm Hrest IH]; cbn [c01_mrun map]; [reflexivity|].
     rewrite (c01_mstep_none m Hm). f_equal. exact IH.
@@ -202,12 +217,13 @@ Proof. reflexivity. Qed.
 (* ---- refutations of the three variants (binary64, vm_compute) ---- *)
 Definition c01_first_x (g : list (list (float * float))) : float := fst (nth 0 (nth 0 g []) (0%float, 0%float)).
 
-(* (1) on the code as it is: cache=True hands out the cache itself; a caller overwrite then changes what get_lonlats returns *)
+(* (1) the variant that hands out the cache itself (the behaviour before fix 0014900f): a caller overwrite after cache=True
+   changes what get_lonlats returns *)
 Lemma c01_aliased_overwrite_refuted :
   let a := mk_area 0%float 0%float 2%float 2%float 2 2 in
   let scale := map (map (fun p : float * float => (PrimFloat.mul (fst p) 0.5%float, snd p))) in
   let ms := [MCall (OpLonlats None None true) (Some scale); MCall (OpLonlats None None false) None] in
-  c01_mrun F64 (fun p => p) (fun p => p) a None ms <> map (fun m => c01_stateless F64 (fun p => p) (fun p => p) a (c01_mop_op m)) ms.
+  c01_mrun F64 (fun p => p) (fun p => p) a true None ms <> map (fun m => c01_stateless F64 (fun p => p) (fun p => p) a (c01_mop_op m)) ms.
 Proof.
   cbv zeta. intros H.
   apply (f_equal (fun l => PrimFloat.eqb (c01_first_x (nth 1 l [])) 0.5%float)) in H. vm_compute in H. discriminate.
